@@ -5,7 +5,7 @@ cd /verif; mkdir -p out; : > ${3:-out/matrix.txt}
 par=${1:-2}; export OUTF=${3:-out/matrix.txt}
 run_one() {
   s=$1; pid=${s%%_*}
-  r=$(VERIF_JOBS=8 tools/try_seeded.sh $s $pid 2>&1)
+  r=$(VERIF_JOBS=${MATRIX_JOBS:-8} tools/try_seeded.sh $s $pid 2>&1)
   v=$(echo "$r" | grep -c "VIOLATION")
   last=$(echo "$r" | grep "tier=" | tail -1 | sed 's/.*\] //')
   obs=$(echo "$r" | grep "obligation=" | sed 's/.*obligation=\([^ ]*\).*/\1/' | sort -u | tr '\n' ',' )
